@@ -27,7 +27,7 @@ RULE = ("TLC behaviours of Gen_CalcEnv (environment transition cover = every arr
 
 
 def make_P(ctx):
-    return cc.make_P(ctx, CFG, UNIVERSES, nontrivial, RULE, design=False, env={"VERIF_FRESH": "none"}, quick_beh=150, n_random=(150, 4000),
+    return cc.make_P(ctx, CFG, UNIVERSES, nontrivial, RULE, design=False, env={"VERIF_FRESH": "none", "VERIF_WINDOWS": "most"}, quick_beh=150, n_random=(240, 4000),
                      assumptions=["resolver level only: RouteUpdate contents; the route-manager level (targets per route class) is checked by the routemgr check",
                                   "destinations that are also a tunnel or host address are left to C01's fresh oracle"])
 
